@@ -28,7 +28,7 @@ def unstream(file=sys.stdin):
     def func(package):
         descriptor = read()
         yield Package(descriptor)
-        for _ in descriptor['resources']:
+        for _ in descriptor.get('resources', []):
             reader = res_reader()
             yield reader
             # skip what a later step left unread: the next resource starts after the separator
